@@ -98,6 +98,7 @@ type StreamOptions struct {
 	MaxDB           int    // SELECT targets 0..MaxDB
 	PSelect         float64
 	PTxn            float64
+	PTxnSelect      float64 // inside a transaction: probability of a SELECT before each member (a master propagates one when a transaction touches several databases)
 	PNoise          float64 // PING / GETACK / sentinel / admin
 	PCfgOut         float64
 	MaxTxnLen       int
@@ -246,11 +247,12 @@ func GenStream(r *rand.Rand, o StreamOptions) *Stream {
 		c.End = int64(len(s.Bytes))
 		s.Cmds = append(s.Cmds, c)
 	}
-	sel := func() {
+	selIn := func(g int) {
 		n := r.Intn(o.MaxDB + 1)
 		db = n
-		add(KSelect, pick(r, "SELECT", "select", "Select"), [][]byte{[]byte(strconv.Itoa(n))}, "", -1)
+		add(KSelect, pick(r, "SELECT", "select", "Select"), [][]byte{[]byte(strconv.Itoa(n))}, "", g)
 	}
+	sel := func() { selIn(-1) }
 	write := func(g int) {
 		id := fmt.Sprintf("~%s.%d~", o.Hist, nextID)
 		nextID++
@@ -343,6 +345,9 @@ func GenStream(r *rand.Rand, o StreamOptions) *Stream {
 			}
 			add(KMulti, pick(r, "MULTI", "multi"), nil, "", group)
 			for i := 0; i < n; i++ {
+				if o.PTxnSelect > 0 && r.Float64() < o.PTxnSelect {
+					selIn(group)
+				}
 				write(group)
 			}
 			add(KExec, pick(r, "EXEC", "exec"), nil, "", group)
@@ -365,6 +370,15 @@ func (s *Stream) AppendSentinel(db int) *Cmd {
 	c.End = int64(len(s.Bytes))
 	s.Cmds = append(s.Cmds, c)
 	return &s.Cmds[len(s.Cmds)-1]
+}
+
+// AppendSelect appends a SELECT (outside any transaction).
+func (s *Stream) AppendSelect(db int) {
+	c := Cmd{Kind: KSelect, Name: "SELECT", Args: [][]byte{[]byte(strconv.Itoa(db))}, DB: db, Group: -1, Idx: len(s.Cmds)}
+	c.Start = int64(len(s.Bytes))
+	s.Bytes = append(s.Bytes, Encode(c.Name, c.Args)...)
+	c.End = int64(len(s.Bytes))
+	s.Cmds = append(s.Cmds, c)
 }
 
 // LastDB returns the source database in force at the end of the stream.
